@@ -2,6 +2,7 @@ import Driver.C14
 import Driver.Conn
 import Driver.Viso
 import Driver.Tools
+import Driver.C13
 /-! `vmodel`: the line-protocol driver over the executable Lean model.
     One case per input line (`<stream> <args…>`), one predicted observation per output line. -/
 namespace Driver
@@ -18,6 +19,8 @@ def dispatch (line : String) : String :=
     | "viso" => visoOp args
     | "mkiso" => mkisoOp args
     | "dec" => decOp args
+    | "c13" => c13Op args
+    | "c13end" => c13endOp args
     | "real" => realOp args
     | _ => "bad-op"
 
